@@ -4,11 +4,12 @@ from evalutil import *
 
 ID = "C13"
 LEVEL = "proof"
-MODULES = ["H3Proofs.Props.C13", "H3Proofs.Props.C13Bij", "H3Proofs.Props.C04Valid", "H3Proofs.Props.C13Refine", "H3Proofs.Props.C04Gen"]
+MODULES = ["H3Proofs.Props.C13", "H3Proofs.Props.C13Bij", "H3Proofs.Props.C04Valid", "H3Proofs.Props.C13Refine", "H3Proofs.Props.C04Gen", "H3Proofs.Props.C13Gen"]
 THEOREMS = "auto"
 ASSUMPTIONS = ["hand-written loop-faithful model of cellToChildPos/childPosToCell/validateChildPos/_ipow tied to the code "
                "by the correspondence check; the specification-level model the bijection theorems are about is PROVED equal "
                "to the loop-faithful one for all inputs (C13Refine: childPosToCell_eq, cellToChildPos_eq)"]
+ASSUMPTIONS.append('cellToParent, cellToChildrenSize, isPentagon and _ipow(7, 0..15), which cellToChildPos / childPosToCell / validateChildPos are built from, are translated from the C text on every run and proved equal to the model functions (C04Gen)')
 NOT_PROVED = []
 EXPLANATION = ("position <-> child theorems about the model + correspondence; the evaluator compares the real "
                "functions with an independent python rank/unrank over the digit tree at every depth 0..15")
@@ -93,6 +94,13 @@ def streams(rng, tier):
         ops2.append(f"pos2cell 0 {gen.hx(p)} {rng.choice(gen.EXTREME_INTS)}")
         ops2.append(f"cpos {gen.hx(p)} {rng.choice(gen.EXTREME_INTS)}")
         ops2.append(f"pos2cell 0 {gen.hx(p)} {max(-1, ((p >> 52) & 15) - 1)}")
+    # the c2lean translations of validateChildPos / getNumCells / maxGridDiskSize against the compiled functions
+    ks = [13780509, 13780510, 13780511, 0, 1, 2, 100, 46340, 46341, 2000000] + gen.EXTREME_INTS
+    for i_, (p, cres, pos) in enumerate(tr[:600]):
+        size = gen.children_size(p, cres)
+        q = (pos, -1, size, size - 1, 0, -2 ** 63, 2 ** 63 - 1)[i_ % 7]
+        r_ = cres if i_ % 5 else rng.choice(gen.EXTREME_INTS + [0, 15, 16])
+        ops2.append(f"genfn4 {q} {gen.hx(p)} {r_} {ks[i_ % len(ks)]} {gen.hx(rng.getrandbits(64))}")
     for _ in range(1500):
         h = gen.malformed(rng)
         ops2.append(f"cpos {gen.hx(h)} {rng.randrange(-1, 17)}")
